@@ -9,6 +9,7 @@ from common import coq_list, qstr
 IMPORTS = 'Base Units Contents Container Dilute Solve Plate Prog Recipe'
 UNITS_BY_KIND = {'Liquid': ['mL', 'umol', 'mg', 'uL', 'mmol', 'g'], 'Solid': ['umol', 'mg', 'mmol', 'g', 'uL'], 'Enzyme': ['U', 'mg', 'uL', 'kU']}
 TOTAL_UNITS = ['uL', 'mL', 'mg', 'umol', 'U', 'g', 'mmol']
+DECA_UNITS = ['daL', 'dag', 'damol']      # the one two-letter prefix
 
 
 def split_unit(u):
@@ -950,6 +951,43 @@ def twin_lot_recipes():
         progs.append({'subs': subs, 'objects': base + [{'t': 'c', 'name': 4, 'init': [[1, q('10', 'm', 'L')], [a, q('700', '', 'U')]]},
                                                        {'t': 'c', 'name': 5, 'init': [[1, q('10', 'm', 'L')], [b, q('700', '', 'U')]]}],
                       'prefill': [], 'steps': list(tail), 'stages': [{'name': 'st1', 'start': 0, 'stop': 2}], 'queries': []})
+    return progs
+
+
+def directed_recipes():
+    """hand-written recipes for situations the random generator reaches only by chance: quantities with a fractional number of
+    microlitres / tenths of a milligram; a removal on part of a plate whose other wells hold the same substance; a plate that is only
+    ever a source (pre-loaded, then drawn from)"""
+    q = lambda v, p, b: {'v': v, 'p': p, 'b': b}
+    subs = [dict(s) for s in dsl.LIBRARY if s['id'] in (1, 2, 4)]
+    row = lambda r: {'rect': [[r], [0, 1, 2]]}
+    one = lambda a, b: {'rect': [[a], [b]]}
+    objs = [{'t': 'c', 'name': 1, 'init': [[1, q('20', 'm', 'L')], [4, q('500', 'm', 'g')]]}, {'t': 'p', 'name': 2, 'rows': 2, 'cols': 3, 'max': q('300', 'u', 'L')},
+            {'t': 'c', 'name': 3, 'init': [[2, q('1', 'm', 'L')]]}, {'t': 'p', 'name': 4, 'rows': 2, 'cols': 3, 'max': q('300', 'u', 'L')}]
+    progs = []
+    # fractional quantities
+    progs.append({'subs': subs, 'objects': objs, 'prefill': [],
+                  'steps': [{'op': 'transfer', 'src': {'c': 1}, 'dst': {'p': 2, 'r': row(0)}, 'q': q('2.5', 'u', 'L')},
+                            {'op': 'transfer', 'src': {'c': 1}, 'dst': {'p': 2, 'r': row(1)}, 'q': q('33.3', 'u', 'L')},
+                            {'op': 'transfer', 'src': {'p': 2, 'r': one(1, 0)}, 'dst': {'p': 4, 'r': one(0, 0)}, 'q': q('0.5', 'u', 'L')},
+                            {'op': 'transfer', 'src': {'c': 1}, 'dst': {'c': 3}, 'q': q('7.5', 'u', 'L')},
+                            {'op': 'transfer', 'src': {'c': 1}, 'dst': {'c': 3}, 'q': q('2.55', 'm', 'g')},
+                            {'op': 'transfer', 'src': {'c': 3}, 'dst': {'p': 4, 'r': row(1)}, 'q': q('1.2345', 'c', 'L') if False else q('150', 'n', 'L')}],
+                  'stages': [{'name': 'st1', 'start': 0, 'stop': 2}], 'queries': []})
+    # a removal on one row of a plate whose other row holds the same substances
+    progs.append({'subs': subs, 'objects': objs, 'prefill': [],
+                  'steps': [{'op': 'transfer', 'src': {'c': 1}, 'dst': {'p': 2, 'r': {'rect': [[0, 1], [0, 1, 2]]}}, 'q': q('100', 'u', 'L')},
+                            {'op': 'remove', 't': {'p': 2, 'r': row(0)}, 'w': {'s': 1}},
+                            {'op': 'transfer', 'src': {'c': 3}, 'dst': {'p': 4, 'r': row(0)}, 'q': q('20', 'u', 'L')},
+                            {'op': 'remove', 't': {'p': 2, 'r': one(1, 2)}, 'w': {'k': 'Solid'}},
+                            {'op': 'transfer', 'src': {'c': 1}, 'dst': {'c': 3}, 'q': q('1', 'm', 'L')}],
+                  'stages': [{'name': 'st1', 'start': 1, 'stop': 2}, {'name': 'st2', 'start': 3, 'stop': 5}], 'queries': []})
+    # a pre-loaded plate that is only ever a source
+    progs.append({'subs': subs, 'objects': objs, 'prefill': [{'src': 1, 'dst': 2, 'q': q('80', 'u', 'L')}],
+                  'steps': [{'op': 'transfer', 'src': {'p': 2, 'r': row(0)}, 'dst': {'c': 3}, 'q': q('30', 'u', 'L')},
+                            {'op': 'transfer', 'src': {'p': 2, 'r': one(1, 1)}, 'dst': {'p': 4, 'r': row(1)}, 'q': q('10', 'u', 'L')},
+                            {'op': 'transfer', 'src': {'c': 1}, 'dst': {'p': 4, 'r': row(0)}, 'q': q('25', 'u', 'L')}],
+                  'stages': [{'name': 'st1', 'start': 0, 'stop': 1}], 'queries': []})
     return progs
 
 
